@@ -1,4 +1,6 @@
 import TaskModel.Load.MergeInvariant
+import TaskModel.Load.ReaderLemmas
+import TaskModel.Load.DefaultsLemmas
 import TaskModel.Load.RootRef
 import TaskModel.Load.PathLemmas
 import TaskModel.Load.VarsLemmas
@@ -301,6 +303,23 @@ theorem deepCopy_requires_complete : missing Fields.fieldsRequires Fields.deepCo
 theorem deepCopy_location_complete : missing Fields.fieldsLocation Fields.deepCopyLocation = [] := by decide
 theorem reader_include_complete : missing Fields.fieldsInclude Load.readerIncludeLiteral = [] := by decide
 
+/-- a key of a copy literal is filled from the field OF THE SAME NAME, as it is, through
+`deepcopy.Slice` / `deepcopy.Map`, or through the field's own `DeepCopy()` -/
+def ownKey (p : String × String × String) : Bool :=
+  p.1 == p.2.2 && (p.2.1 == "field" || p.2.1 == "DeepCopy" || p.2.1 == "deepcopy.Slice" || p.2.1 == "deepcopy.Map")
+
+/-- **every key of every `DeepCopy` literal is copied from its own field** (`Gen.Fields`
+`deepCopySources…`, regenerated: `Silent: t.Interactive`, a constant, or a field run through
+some other function breaks this): together with `deepCopy_…_complete` — every field is a
+key — the literal is the field-by-field copy `copyByKeys` assumes. -/
+theorem deepCopy_sources_own_key :
+    Fields.deepCopySourcesTask.all ownKey = true ∧ Fields.deepCopySourcesCmd.all ownKey = true
+    ∧ Fields.deepCopySourcesDep.all ownKey = true ∧ Fields.deepCopySourcesInclude.all ownKey = true
+    ∧ Fields.deepCopySourcesFor.all ownKey = true ∧ Fields.deepCopySourcesPrecondition.all ownKey = true
+    ∧ Fields.deepCopySourcesPlatform.all ownKey = true ∧ Fields.deepCopySourcesRequires.all ownKey = true
+    ∧ Fields.deepCopySourcesLocation.all ownKey = true
+    ∧ Fields.deepCopySourcesTask.map (·.1) = Fields.deepCopyTask := by decide
+
 /-- **C08_attrs.**  `Task.DeepCopy` (and the copies of the values it contains, and the
 include literal of the reader) carry every field of the struct, for every value; and the
 rest of `Tasks.Merge` leaves the attribute record, the task variables and the location
@@ -334,6 +353,85 @@ theorem C08_attrs_merged (t1 t2 r : Table) (inc : Include) (itv : Vars) (h : mer
   obtain ⟨e1, _, _, e4, e5, e6, e7, e8⟩ := core_fields h2
   exact ⟨t', h1, e1.trans (mergeOne_name _ _ _), e4.trans (mergeOne_attrs _ _ _), e8.trans (mergeOne_vars _ _ _),
     e7.trans (mergeOne_loc _ _ _), e5.trans (mergeOne_internal _ _ _), e6.trans (mergeOne_dir _ _ _)⟩
+
+/-! ## C08_file_defaults — the defaults an included Taskfile declares for its tasks go with them
+
+`method`, `run`, `silent` ("Default … for this Taskfile"), `set`, `shopt` at the top of a
+Taskfile.  Since the fix the merge gives them to the file's tasks (`Tasks.setDefaults`,
+model `Taskfile.bake` applied by `Graph.mergeIncs`); before it they were dropped and only the
+root file's applied. -/
+
+/-- **one merge**: the copy of a non-excluded task `t` of the included file carries `t`'s
+attributes with the file's defaults applied — `silent` or-ed, `method` / `run` where `t`
+declares none, `set` / `shopt` united — and every other attribute as it is. -/
+theorem C08_file_defaults (t1 t2 r : Taskfile) (inc : Include) (h : mergeTaskfile t1 t2.bake inc = .ok r)
+    (t : Task) (ht : t ∈ t2.tasks) (hx : t.name ∉ inc.excludes) :
+    ∃ t' ∈ r.tasks, t'.name = renName inc t.name ∧ t'.attrs = applyDefaults t2.defaults t.attrs
+      ∧ ∀ k, k ≠ posSilent → k ≠ posMethod → k ≠ posRun → k ≠ posSet → k ≠ posShopt → t'.attrs[k]? = t.attrs[k]? := by
+  obtain ⟨itv, hr⟩ := mergeTaskfile_tasks _ _ _ _ h
+  have hnew : mergeOne inc itv (bakeTask t2.defaults t) ∈ t1.tasks ++ newTasks inc itv t2.bake.tasks := by
+    apply List.mem_append_right
+    simp only [newTasks, List.mem_map, List.mem_filter, Taskfile.bake]
+    exact ⟨bakeTask t2.defaults t, ⟨⟨t, ht, rfl⟩, by rw [bakeTask_name]; exact decide_eq_true hx⟩, rfl⟩
+  obtain ⟨t', h1, h2, _⟩ := defaultAlias_mem inc t2.bake.tasks _ _ hnew
+  obtain ⟨e1, _, _, e4, _⟩ := core_fields h2
+  have hattrs : t'.attrs = applyDefaults t2.defaults t.attrs := e4.trans (mergeOne_attrs _ _ _)
+  refine ⟨t', hr ▸ h1, e1.trans (mergeOne_name _ _ _), hattrs, ?_⟩
+  intro k h0 h1' h2' h3 h4
+  rw [hattrs, applyDefaults_get]
+  cases t.attrs[k]? with
+  | none => rfl
+  | some a => simp [defaultAt_other _ k a h0 h1' h2' h3 h4]
+
+/-- `setDefaults` may be applied any number of times (the implementation does it in place,
+once per include statement naming the file): the second time changes nothing -/
+theorem C08_file_defaults_idempotent (tf : Taskfile) : tf.bake.bake = tf.bake := bake_idem tf
+
+/-- the full demand "as in its own file" for the five defaults: whatever the including files
+declare, a task runs with the value it has when its own file is the root -/
+def C08_defaults_full : Prop :=
+  ∀ (root c : Defaults) (i a : Nat), effectiveAt root i (defaultAt c i a) = effectiveAt c i a
+
+/-- … is false of the rule as it is (and of any rule in which the root's defaults mean
+anything for included tasks): root `method: timestamp`, included file and task silent on
+`method` — in its own file the task uses `checksum`, included it uses `timestamp`. -/
+theorem C08_defaults_full_counterexample : ¬ C08_defaults_full := by
+  intro h
+  have := h { method := 2 } {} posMethod 0
+  revert this
+  decide
+
+/-- **as in its own file wherever something is declared** — `method`, `run`: when the task or
+its own file declares the option, the merged task runs with exactly the own-file value;
+`silent`: silent in its own file ⇒ silent; `set`, `shopt`: every option it has in its own
+file it keeps; and when the root declares nothing, all five are the own-file values. -/
+theorem C08_defaults_partial (root c : Defaults) :
+    (∀ i a, (i = posMethod ∨ i = posRun) →
+        (a ≠ 0 ∨ (i = posMethod ∧ c.method ≠ 0) ∨ (i = posRun ∧ c.run ≠ 0)) →
+        effectiveAt root i (defaultAt c i a) = effectiveAt c i a)
+    ∧ (∀ a, effectiveAt c posSilent a ≠ 0 → effectiveAt root posSilent (defaultAt c posSilent a) ≠ 0)
+    ∧ (∀ a bit, (effectiveAt c posSet a).testBit bit = true → (effectiveAt root posSet (defaultAt c posSet a)).testBit bit = true)
+    ∧ (∀ a bit, (effectiveAt c posShopt a).testBit bit = true → (effectiveAt root posShopt (defaultAt c posShopt a)).testBit bit = true) :=
+  ⟨fun i a hi hd => effective_declared root c i a hi hd, effective_silent root c, effective_set root c, effective_shopt root c⟩
+
+/-- non-vacuity: file `run: once`, `silent: true`, `set: [pipefail]` (bit 1); a task without
+options of its own under a root with `run: when_changed` and `set: [errexit]` (bit 0): runs
+`once`, silent, with both shell options -/
+example : effective { run := 3, set := 1 } (applyDefaults { silent := 1, run := 2, set := 2 } (List.replicate 21 0))
+    = [1, 1, 2, 3, 0] := by decide
+
+/-- **the output style is the root's**: an include never replaces an output style the
+including file sets; it supplies one only where there is none -/
+theorem C08_output_kept (t1 t2 r : Taskfile) (inc : Include) (h : mergeTaskfile t1 t2 inc = .ok r) :
+    r.output = if t1.output = 0 then t2.output else t1.output := by
+  simp only [mergeTaskfile] at h
+  split at h
+  · cases h
+  · split at h
+    · cases h
+    · split at h
+      · cases h; rfl
+      · cases h
 
 /-- **sees the include's vars, runs in the include's directory**: for an advanced import the
 copy's `IncludeVars` answer every name of the include statement's `vars:` with that value
@@ -373,6 +471,60 @@ theorem C08_no_overwrite (t1 t2 r : Table) (inc : Include) (itv : Vars) (h : mer
 theorem C08_no_overwrite_graph (g : Graph) (σ : List Nat) (ε : Edge → List Include) (tf : Taskfile)
     (h : g.merge σ ε = .ok tf) (hn : Store.AllNodup g.verts) : tf.tasks.names.Nodup :=
   merge_nodup g σ ε tf h hn
+
+/-- **never a silent overwrite, for every load** (no hypothesis on the files): the keys of
+a loaded Taskfile are pairwise distinct.  The hypothesis `Store.AllNodup` of the graph-level
+theorem is what the decoder guarantees of every file it accepts (`readGraph_allNodup`:
+a key used twice in `tasks:` is a decode error since the duplicate-key fix). -/
+theorem C08_no_overwrite_load (fm : FileMap) (root : Nat) (tf : Taskfile) (h : load fm root = .ok tf) :
+    tf.tasks.names.Nodup := by
+  simp only [load] at h
+  split at h
+  · rename_i g hg
+    simp only [Graph.mergeCanonical] at h
+    split at h
+    · exact C08_no_overwrite_graph _ _ _ tf h (readGraph_allNodup fm root g hg)
+    · cases h
+  · cases h
+
+/-- … and every file that took part in a successful load has no key used twice, in
+`tasks:`, `includes:`, `vars:`, `env:`, task `vars:` and include `vars:` -/
+theorem C08_loaded_files_well_keyed (fm : FileMap) (root : Nat) (tf : Taskfile) (h : load fm root = .ok tf) :
+    ∃ g, readGraph fm root = .ok g ∧ ∀ p ∈ g.verts, p.2.wellKeyed = true := by
+  simp only [load] at h
+  split at h
+  · rename_i g hg
+    exact ⟨g, hg, readGraph_wellKeyed fm root g hg⟩
+  · cases h
+
+/-- **duplicate key ⇒ decode error**: a file with a key used twice is refused as soon as it
+is read (before its version is looked at, before any of its includes is followed) -/
+theorem C08_duplicate_key (fm : FileMap) (fuel : Nat) (stack : List Nat) (f : Nat) (g : Graph) (tf : Taskfile)
+    (hf : Store.get f fm = some tf) (hd : tf.wellKeyed = false) :
+    visit fm (fuel + 1) stack f g = .error .decode :=
+  visit_duplicate_key fm fuel stack f g tf hf hd
+
+/-- … in particular a root Taskfile with a duplicate key never loads -/
+theorem C08_duplicate_key_root (fm : FileMap) (root : Nat) (tf : Taskfile)
+    (hf : Store.get root fm = some tf) (hd : tf.wellKeyed = false) : load fm root = .error .decode := by
+  simp [load, readGraph, visit_duplicate_key fm _ [] root ⟨[], []⟩ tf hf hd]
+
+/-- **tie, regenerated half** of the duplicate-key rule: the mappings `taskfile/ast` decodes
+by walking the YAML node by hand are exactly these four; the three that carry tasks,
+includes and variables (`vars:` and `env:` at every level are `Vars`) refuse a repeated key
+before they `Set` it; `duplicateKeyError` compares the key with every EARLIER key of the same
+mapping (kind and value, as yaml.v3 does) and returns a `TaskfileDecodeError`.  (`Matrix`
+— the rows of `for: matrix:` — still keeps the last of two equal keys; it carries no
+task, include or variable of the loader and is listed so that a fifth hand-decoded mapping
+cannot appear unnoticed.) -/
+theorem duplicate_key_rule_in_source :
+    Load.handDecodedMappings =
+      [("Includes.UnmarshalYAML", "dupcheck-before-set"), ("Matrix.UnmarshalYAML", "no-dupcheck"),
+       ("Tasks.UnmarshalYAML", "dupcheck-before-set"), ("Vars.UnmarshalYAML", "dupcheck-before-set")]
+    ∧ Load.duplicateKeyCheck =
+      ["‹0› := ‹p:*yaml.Node›.Content[‹p:int›]", "for ‹1› := 0; ‹1› < ‹p:int›; ‹1› += 2",
+       "‹2› := ‹p:*yaml.Node›.Content[‹1›]", "if ‹2›.Kind == ‹0›.Kind && ‹2›.Value == ‹0›.Value",
+       "return errors.NewTaskfileDecodeError(…)", "return nil"] := by decide
 
 /-- the only error `Tasks.Merge` can produce is the conflict error -/
 theorem C08_tasks_error_is_conflict (t1 t2 : Table) (inc : Include) (itv : Vars) (e : Err)
@@ -421,7 +573,7 @@ theorem C08_loaded_is_acyclic (fm : FileMap) (root : Nat) (tf : Taskfile) (h : l
 
 /-- an error of any merge step is the result of the whole merge (no step is skipped) -/
 theorem C08_errors_propagate (src dst : Nat) (inc : Include) (rest : List Include) (st : Store) (t1 t2 : Taskfile)
-    (e : Err) (h1 : st.get src = some t1) (h2 : st.get dst = some t2) (h : mergeTaskfile t1 t2 inc = .error e) :
+    (e : Err) (h1 : st.get src = some t1) (h2 : st.get dst = some t2) (h : mergeTaskfile t1 t2.bake inc = .error e) :
     mergeIncs src dst (inc :: rest) st = .error e := by
   simp [mergeIncs, h1, h2, h]
 
@@ -500,6 +652,12 @@ example : isErr .cycle (load [(0, tfile [] [decl [97] 0])] 0) = true := by decid
 example : isErr .missing (load [(0, tfile [] [decl [97] 7])] 0) = true := by decide
 example : isErr .version (load [(0, tfile [] [decl [97] 1]), (1, tfile [] [] 31)] 0) = true := by decide
 example : isErr .conflict (load [(0, tfile [tk [114] [] [] 0] [decl [97] 1 true]), (1, tfile [tk [114] [] [] 1] [])] 0) = true := by decide
+/-- duplicate keys: two tasks `r` in the root file; two includes `a` in an included file;
+a variable defined twice in an include statement — each a decode error (the unrepaired
+decoder kept the second of each silently) -/
+example : isErr .decode (load [(0, tfile [tk [114] [⟨[], 1⟩] [] 0, tk [114] [⟨[], 2⟩] [] 0] [])] 0) = true := by decide
+example : isErr .decode (load [(0, tfile [] [decl [97] 1]), (1, tfile [] [decl [97] 2, decl [97] 3]), (2, tfile [] []), (3, tfile [] [])] 0) = true := by decide
+example : isErr .decode (load [(0, tfile [] [{ decl [97] 1 with vars := [(1, ⟨1, Dir.unset⟩), (1, ⟨2, Dir.unset⟩)] }]), (1, tfile [] [])] 0) = true := by decide
 /-- a diamond (0 → 1, 0 → 2, 1 → 3, 2 → 3) loads, with the shared file under both paths -/
 example : keysOf (load [(0, tfile [] [decl [97] 1, decl [98] 2]), (1, tfile [] [decl [99] 3]), (2, tfile [] [decl [99] 3]),
     (3, tfile [tk [116] [] [] 3] [])] 0) = [[98, 58, 99, 58, 116], [97, 58, 99, 58, 116]] := by decide
